@@ -184,18 +184,21 @@ def run(run, replay=None):
     run.sample({'file_bytes': len(files[0]), 'paddings': '0..%d' % pads[-1], 'block_sizes': sizes if quick else '1..193, 10^6',
                 'head': files[0][:80].decode('latin-1')})
     run.sample({'long_header_file_bytes': len(long_hdr)})
-    can = []
-    pool = [c for c in cases if c['recs']]
-    for k, c in enumerate(rng.sample(pool, min(8, len(pool)))):
-        z = copy.deepcopy(c)
-        z['canary_of'] = z['id']
-        z['id'] = 'canary-%d' % k
-        r = z['recs'][-1]
-        if k % 2 and (r['raw'] or r['text']):
-            (r['raw'] or r['text']).pop()      # one byte of content lost
-        else:
-            z['recs'].append(copy.deepcopy(r))  # a section read twice
-        can.append(z)
+    def _mk_canaries():
+        can = []
+        pool = [c for c in cases if c['recs']]
+        for k, c in enumerate(rng.sample(pool, min(8, len(pool)))):
+            z = copy.deepcopy(c)
+            z['canary_of'] = z['id']
+            z['id'] = 'canary-%d' % k
+            r = z['recs'][-1]
+            if k % 2 and (r['raw'] or r['text']):
+                (r['raw'] or r['text']).pop()      # one byte of content lost
+            else:
+                z['recs'].append(copy.deepcopy(r))  # a section read twice
+            can.append(z)
+        return can
+    can = run.tolerant(_mk_canaries)
     run.judge('Trace_Reader', cases + can, None, canary_ids=[c['id'] for c in can],
               describe=lambda c: {'padding': c['padding'], 'block_size': c['block_size'], 'end': c['end']})
     run.notes.update({'files': len(files), 'reads': nreads, 'file_padding_pairs_with_block_size_dependent_result': disagreeing})
